@@ -797,3 +797,75 @@ Proof.
         let H := fresh in pose proof (byte_at_ok buf k Hb) as H; generalize dependent (byte_at buf k); intros end;
       lia.
 Qed.
+
+(* ---- "changes only the bits belonging to pixel i", bit by bit -------------------------------------------
+   owns t alt i k q : bit q of byte k belongs to pixel i in the documented layout *)
+Definition owns (t : rawty) (alt : order) (i k q : Z) : Prop :=
+  if bits t <? 8 then
+    k = i / ppb t /\
+    let lo := if alt then (i mod ppb t) * bits t else 8 - (i mod ppb t + 1) * bits t in lo <= q < lo + bits t
+  else i * nbytes t <= k < (i + 1) * nbytes t.
+
+Lemma store_touches_only t alt v buf i k q :
+  bytes_ok buf -> len_ok buf -> raw_ok t v -> 0 <= i < pixels_total t (buf_len buf) ->
+  0 <= k -> 0 <= q < 8 -> ~ owns t alt i k q ->
+  Z.testbit (byte_at (fst (store t alt v buf i)) k) q = Z.testbit (byte_at buf k) q.
+Proof.
+  intros Hb Hl Hv Hi Hk Hq N. apply len_ok_usize in Hl. unfold owns in N.
+  destruct (rawty_cases t) as [St|[->|Mt]].
+  - destruct (sub_total t (buf_len buf) i St (proj1 Hi) (buf_len_nonneg buf)) as (T & M & D).
+    replace (bits t <? 8) with true in N by (destruct St as [->|[->| ->]]; reflexivity). cbv iota zeta in N.
+    rewrite store_sub_in by auto. cbn [fst].
+    destruct (Z.eq_dec k (i / ppb t)) as [->|E].
+    + rewrite byte_at_upd_eq by lia.
+      pose proof (sb_store t alt (i mod ppb t) (byte_at buf (i / ppb t)) v St M (byte_at_ok _ _ Hb) Hv) as S.
+      cbv zeta in S. destruct S as (_ & _ & _ & _ & S4).
+      pose proof (sb_load t alt (i mod ppb t) (byte_at buf (i / ppb t)) St M (byte_at_ok _ _ Hb)) as L.
+      cbv zeta in L. destruct L as (_ & L2 & _).
+      apply S4; auto. rewrite L2. cbv zeta in N. tauto.
+    + rewrite byte_at_upd_neq by lia. reflexivity.
+  - change (bits U8 <? 8) with false in N. change (nbytes U8) with 1 in N. cbv iota in N.
+    rewrite u8_total in Hi. rewrite store_u8_in by auto. cbn [fst].
+    rewrite byte_at_upd_neq by lia. reflexivity.
+  - destruct (multi_nbytes t Mt) as [Hn Hbits].
+    replace (bits t <? 8) with false in N by lia. cbv iota in N.
+    pose proof (proj1 (multi_total t (buf_len buf) i Mt (proj1 Hi) (buf_len_nonneg buf)) (proj2 Hi)) as Hr.
+    pose proof (length_encode t alt v Mt) as Le.
+    rewrite store_multi_in by auto. cbn [fst].
+    rewrite byte_at_splice by nia. rewrite Le.
+    destruct (k <? i * nbytes t) eqn:E1; auto.
+    destruct (k <? i * nbytes t + nbytes t) eqn:E2; auto. exfalso. apply N. lia.
+Qed.
+
+(* the bit sets of different pixels are disjoint, and every bit of the used bytes belongs to a pixel *)
+Ltac divs := change (8 / 1) with 8 in *; change (8 / 2) with 4 in *; change (8 / 4) with 2 in *; change (8 / 8) with 1 in *;
+             change (16 / 8) with 2 in *; change (24 / 8) with 3 in *; change (32 / 8) with 4 in *.
+
+Lemma owns_disjoint t alt i j k q : 0 <= i -> 0 <= j -> i <> j -> owns t alt i k q -> ~ owns t alt j k q.
+Proof.
+  intros Hi Hj N. unfold owns, ppb, nbytes. destruct t; cbn [bits];
+    match goal with |- context [?a <? 8] => let b := eval vm_compute in (a <? 8) in change (a <? 8) with b end;
+    cbv iota zeta; divs; destruct alt; lia.
+Qed.
+
+Lemma byte_is_its_pixels t alt buf k q :
+  0 <= k < buf_len buf -> 0 <= q < 8 -> k < pixels_total t (buf_len buf) * bits t / 8 ->
+  exists i, 0 <= i < pixels_total t (buf_len buf) /\ owns t alt i k q.
+Proof.
+  intros Hk Hq Hu. unfold owns, ppb, nbytes, pixels_total in *.
+  destruct t; cbn [bits] in *.
+  all: repeat match goal with |- context [?a <? 8] =>
+         let b := eval vm_compute in (a <? 8) in change (a <? 8) with b end.
+  all: repeat match type of Hu with context [8 <=? ?a] =>
+         let b := eval vm_compute in (8 <=? a) in change (8 <=? a) with b in Hu end.
+  all: repeat match goal with |- context [8 <=? ?a] =>
+         let b := eval vm_compute in (8 <=? a) in change (8 <=? a) with b end.
+  all: cbv iota zeta in *; divs.
+  - destruct alt; [exists (k * 8 + q)|exists (k * 8 + (7 - q))]; lia.
+  - destruct alt; [exists (k * 4 + q / 2)|exists (k * 4 + (3 - q / 2))]; lia.
+  - destruct alt; [exists (k * 2 + q / 4)|exists (k * 2 + (1 - q / 4))]; lia.
+  - exists k. lia.
+  - exists (k / 2). lia.
+  - exists (k / 3). lia.
+  - exists (k / 4). lia.
+Qed.
